@@ -205,14 +205,11 @@ def label_obligations(raw, tu, spec, meta):
         if f.endswith('unit.c') and line in tu.labels:
             lab, lk = tu.labels[line]
         if lab is None and f.endswith('unit.c') and kind in ('loop_invariant_base', 'loop_invariant_step'):
-            # cbmc reports the invariants of a loop one by one (suffix .N) but all at the loop head: the N-th obligation belongs to the
-            # N-th invariant line of the contract block that follows the head
-            inv_lines = []
-            k = line + 1
-            while k <= len(tu.lines) and tu.lines[k - 1].lstrip().startswith('__CPROVER_'):
-                if tu.lines[k - 1].lstrip().startswith('__CPROVER_loop_invariant'):
-                    inv_lines.append(k)
-                k += 1
+            # cbmc reports the invariants of a loop one by one (suffix .N) but all at the loop head line
+            # numbering (.N) runs over ALL loop invariants of the function in textual order
+            fn_lo_, fn_hi_ = meta["fn_lines"]
+            inv_lines = [k for k in range(fn_lo_, min(fn_hi_, len(tu.lines)) + 1)
+                         if tu.lines[k - 1].lstrip().startswith('__CPROVER_loop_invariant')]
             m = re.search(r'\.(\d+)$', r['property'])
             n = int(m.group(1)) if m else 0
             if 1 <= n <= len(inv_lines) and inv_lines[n - 1] in tu.labels:
